@@ -9,9 +9,9 @@ GLOBAL_ASSUMPTIONS = [
     'no unsafe code is in any function under contract',
 ]
 
-LEXER_BOUNDED = ('sub-lexers: lex_spaces / lex_tabs / lex_newlines (desugaring R7), lex_hostname (R10), lex_email_address (R11), lex_hostname_token, lex_url and 13 URL scanner functions are PROVED (units lexing, url); '
+LEXER_BOUNDED = ('sub-lexers: lex_spaces / lex_tabs / lex_newlines (desugaring R7), lex_hostname (R10), lex_email_address (R11), lex_hostname_token, lex_url, lex_hostport (R19), validate_scheme and 13 URL scanner functions are PROVED (units lexing, url); '
                  'still ASSUMED in Verus: found_ok for lex_hex_number and lex_number (String / str::parse / from_str_radix; CBMC: unwinding / time-out even at length 4 resp. 2 - only the bounded runtime check rac:lexers exercises them), '
-                 'lex_hostport (enumerate().find() chain: Some(n) ==> n <= len; Kani-bounded len<=4 via lexing.url_4, thorough tier), validate_scheme and validate_local_part (arbitrary total bool: termination / panic-freedom by rac:lexers only)')
+                 'validate_local_part (arbitrary total bool: termination / panic-freedom by rac:lexers only)')
 
 PROPS = {
     'C01': dict(
